@@ -557,6 +557,56 @@ impl<'a, 'e> Rewriter<'a, 'e> {
         }
         true
     }
+    /// R34: `if C { S; continue; } REST`  ->  `if C { S } else { REST }`, for a block in TAIL position of a `for` body (the loop
+    /// body itself, or a branch / match-arm block of the last statement of such a block, recursively): skipping REST and going to the
+    /// next iteration is exactly what the `else` does there. A `continue` anywhere else is left alone (Verus then refuses it: exit 2).
+    fn rewrite_continues(&mut self, b: &syn::Block) {
+        let n = b.stmts.len();
+        for (idx, st) in b.stmts.iter().enumerate() {
+            let last = idx + 1 == n;
+            if let syn::Stmt::Expr(syn::Expr::If(ifx), _) = st {
+                if ifx.else_branch.is_none() {
+                    if let Some(syn::Stmt::Expr(syn::Expr::Continue(c), _)) = ifx.then_branch.stmts.last() {
+                        if c.label.is_none() {
+                            let lst = ifx.then_branch.stmts.last().unwrap();
+                            let (ca, cb) = self.src.range(lst.span());
+                            // also swallow a following `;`
+                            let bytes = self.src.text.as_bytes();
+                            let mut cb2 = cb;
+                            while cb2 < bytes.len() && (bytes[cb2] == b' ') { cb2 += 1; }
+                            let cb = if cb2 < bytes.len() && bytes[cb2] == b';' { cb2 + 1 } else { cb };
+                            self.ed.replace(ca, cb, vec![], "R34");
+                            if !last {
+                                let (_, if_end) = self.src.range(ifx.span());
+                                let (_, rest_end) = self.src.range(b.stmts[n - 1].span());
+                                self.ed.insert(if_end, " else {".to_string(), -1, "R34");
+                                self.ed.insert(rest_end, "\n}".to_string(), 9, "R34");
+                            }
+                            self.fire("R34");
+                        }
+                    }
+                }
+            }
+            if last {
+                // descend into the branches of a tail statement
+                let e = match st { syn::Stmt::Expr(e, _) => Some(e), _ => None };
+                if let Some(e) = e { self.continues_in_tail_expr(e); }
+            }
+        }
+    }
+    fn continues_in_tail_expr(&mut self, e: &syn::Expr) {
+        match e {
+            syn::Expr::Block(bx) if bx.label.is_none() => self.rewrite_continues(&bx.block),
+            syn::Expr::If(i) => {
+                self.rewrite_continues(&i.then_branch);
+                if let Some((_, els)) = &i.else_branch { self.continues_in_tail_expr(els); }
+            }
+            syn::Expr::Match(m) => {
+                for arm in &m.arms { self.continues_in_tail_expr(&arm.body); }
+            }
+            _ => {}
+        }
+    }
     fn consume(&mut self, e: &syn::Expr) {
         if let syn::Expr::Closure(c) = e { let r = self.src.range(c.span()); self.consumed_closures.push(r); }
     }
@@ -856,6 +906,8 @@ impl<'a, 'e, 'ast> Visit<'ast> for Rewriter<'a, 'e> {
                 self.fire("R11");
             }
         }
+        // R34: guard-`continue` in a for loop (Verus: "for-loops do not yet support continue")
+        self.rewrite_continues(&f.body);
         syn::visit::visit_expr_for_loop(self, f);
     }
     fn visit_expr_index(&mut self, i: &'ast syn::ExprIndex) {
